@@ -63,6 +63,8 @@ def run_case(ctx, case):
 
 
 def _run_case(ctx, case):
+    if case.get("twin_first"):
+        _run_case(ctx, dict(case, spec=case["twin_first"], twin_first=None))
     spec = case["spec"]
     F = obs.spec_cells(spec)
     f = obs.build(spec)
@@ -188,5 +190,9 @@ def run(ctx):
             for _ in range(rng.randint(2, 5)):
                 a = rng.randint(0, W + 1)
                 sl.append([a, rng.randint(a, W + 2)])
-            run_case(ctx, {"op": "sequence", "spec": spec, "slices": sl})
+            case = {"op": "sequence", "spec": spec, "slices": sl}
+            tw = obs.twin(spec, rng)
+            if tw is not None:
+                case["twin_first"] = tw
+            run_case(ctx, case)
             ctx.count("slice_sequences")
